@@ -50,6 +50,10 @@ harnesses! {
         let c: Color = Hsla::new(h, p, q, a, true).into();
         let comp2 = c.rotate_hue(180.0).rotate_hue(180.0);
         let full = c.rotate_hue(360.0);
+        let once = c.rotate_hue(180.0);
+        if let Color::Hsla(o) = &once {
+            check!(o.sat() == p && o.lum() == q && o.alpha() == a, "one hue rotation keeps saturation, lightness and alpha");
+        }
         cover!(h > 300.0, "wrapping");
         cover!(h < 10.0, "small hue");
         match (&comp2, &full) {
@@ -80,6 +84,25 @@ harnesses! {
             }
             _ => {
                 check!(false, "rotation keeps the representation (hwb)");
+            }
+        }
+    }
+    /// A SINGLE rotation of an hwb colour by any finite angle keeps whiteness,
+    /// blackness and alpha and moves the hue by exactly that angle.
+    fn c32_hue_rotation_single_hwb [unwind 2] (s) {
+        let (h, p, q, a) = (s.num(), s.num(), s.num(), s.num());
+        s.assume(h >= 0.0 && h < 360.0 && p >= 0.0 && q >= 0.0 && p + q <= 1.0 && a >= 0.0 && a <= 1.0);
+        let d = s.finite();
+        let c: Color = Hwba::new(h, p, q, a).into();
+        let once = c.rotate_hue(d);
+        cover!(p > 0.0 && q > 0.0 && p != q, "distinct whiteness and blackness");
+        match &once {
+            Color::Hwba(o) => {
+                check!(o.whiteness() == p && o.blackness() == q && o.alpha() == a, "one hue rotation keeps whiteness, blackness and alpha");
+                check!(o.hue() == h + d, "one hue rotation moves the hue by exactly the angle (hwb)");
+            }
+            _ => {
+                check!(false, "rotation keeps the representation (hwb, single)");
             }
         }
     }
